@@ -81,11 +81,11 @@ theorem unslice_get (a : Array K) (off : Nat) (v : Array K) (p : Nat) :
     (unslice a off v)[p]! = if off ≤ p ∧ p < off + v.size ∧ p < a.size then v[p - off]! else a[p]! :=
   unsliceTo_get a off v v.size p
 
-/-- the first `m` columns of `gstrs` -/
-def gstrsTo (solve : Array K → Array K) (n ldb : Nat) (B : Array K) (m : Nat) : Array K :=
-  (List.range m).foldl (fun (B : Array K) j => unslice B (ldb * j) (solve (slice B (ldb * j) n))) B
+/-- the first `m` columns of a column-by-column update (`gstrs`, `sp_gemm`); the per-column map may depend on the column index -/
+def gstrsTo (solve : Nat → Array K → Array K) (n ldb : Nat) (B : Array K) (m : Nat) : Array K :=
+  (List.range m).foldl (fun (B : Array K) j => unslice B (ldb * j) (solve j (slice B (ldb * j) n))) B
 
-theorem gstrsTo_size (solve : Array K → Array K) (n ldb : Nat) (B : Array K) (m : Nat) :
+theorem gstrsTo_size (solve : Nat → Array K → Array K) (n ldb : Nat) (B : Array K) (m : Nat) :
     (gstrsTo solve n ldb B m).size = B.size := by
   induction m with
   | zero => simp [gstrsTo]
@@ -95,10 +95,10 @@ theorem gstrsTo_size (solve : Array K → Array K) (n ldb : Nat) (B : Array K) (
 
 /-- after `m` columns: columns `< m` hold the solutions of the ORIGINAL columns, everything else is
 as on entry -/
-theorem gstrsTo_get (solve : Array K → Array K) (n ldb : Nat) (B : Array K) (m : Nat)
-    (hs : ∀ v, (solve v).size = n) (hld : n ≤ ldb) (hB : ldb * m ≤ B.size) : ∀ p, p < B.size →
+theorem gstrsTo_get (solve : Nat → Array K → Array K) (n ldb : Nat) (B : Array K) (m : Nat)
+    (hs : ∀ j v, (solve j v).size = n) (hld : n ≤ ldb) (hB : ldb * m ≤ B.size) : ∀ p, p < B.size →
     (gstrsTo solve n ldb B m)[p]! =
-      if p < ldb * m ∧ p % ldb < n then (solve (slice B (ldb * (p / ldb)) n))[p % ldb]! else B[p]! := by
+      if p < ldb * m ∧ p % ldb < n then (solve (p / ldb) (slice B (ldb * (p / ldb)) n))[p % ldb]! else B[p]! := by
   induction m with
   | zero => intro p _; simp [gstrsTo]
   | succ m ih =>
@@ -109,7 +109,7 @@ theorem gstrsTo_get (solve : Array K → Array K) (n ldb : Nat) (B : Array K) (m
     have ih := ih hB'
     have hsz := gstrsTo_size solve n ldb B m
     have hstep : gstrsTo solve n ldb B (m + 1) =
-        unslice (gstrsTo solve n ldb B m) (ldb * m) (solve (slice (gstrsTo solve n ldb B m) (ldb * m) n)) := by
+        unslice (gstrsTo solve n ldb B m) (ldb * m) (solve m (slice (gstrsTo solve n ldb B m) (ldb * m) n)) := by
       simp [gstrsTo, List.range_succ, List.foldl_append]
     -- column m of the intermediate array is still the original column m
     have hcol : slice (gstrsTo solve n ldb B m) (ldb * m) n = slice B (ldb * m) n := by
